@@ -256,6 +256,18 @@ fn choose_slow(arity: u8) -> u8 {
     })
 }
 
+thread_local! {
+    static CLONES: std::cell::Cell<u64> = const { std::cell::Cell::new(0) };
+}
+/// every user `Clone::clone` of an instrumented element type calls this (unconditionally)
+#[inline]
+pub fn note_clone() {
+    CLONES.with(|c| c.set(c.get() + 1));
+}
+pub fn clone_count() -> u64 {
+    CLONES.with(|c| c.get())
+}
+
 pub fn error(msg: String) {
     with(|e| {
         if e.errors.len() < 16 {
